@@ -15,6 +15,13 @@ TNext == /\ l <= Len(Trace) /\ l' = l + 1
             ELSE IF E.ev = "const"
             THEN /\ (IF E.ms = 60000 THEN TRUE ELSE PrintT(<<"VIOL", l, {"C20:recorder-interval-not-one-minute"}>>))
                  /\ UNCHANGED <<interval, lastMsg, lastTime, has>>
+            ELSE IF E.ev = "pnew"     \* a new MotionProcessor (it owns a fresh limiter)
+            THEN interval' = 60000 /\ lastMsg' = "" /\ lastTime' = 0 /\ has' = FALSE
+            ELSE IF E.ev = "pout"     \* a line the real MotionProcessor printed (all its messages pass its limiter):
+                                      \* output-only view of the rule, the processor's life is far shorter than a minute
+            THEN /\ (IF has /\ E.out = lastMsg /\ E.now - lastTime < interval
+                     THEN PrintT(<<"VIOL", l, {"C20:processor-repeats-line-within-interval"}>>) ELSE TRUE)
+                 /\ lastMsg' = E.out /\ lastTime' = E.now /\ has' = TRUE /\ UNCHANGED interval
             ELSE LET should == ~(has /\ E.msg = lastMsg /\ E.now - lastTime < interval)
                      did    == E.out # ""
                      v == (IF should /\ ~did THEN {"C20:message-lost"} ELSE {})
